@@ -13,9 +13,10 @@ import Iodata.Drv.Segment
 import Iodata.Drv.Select
 import Iodata.Drv.Traj
 import Iodata.Drv.Units
+import Iodata.Drv.Wf
 
 def handlers : List (List String → Option String) :=
-  [Iodata.Drv.Cli.handle, Iodata.Drv.Conv.handle, Iodata.Drv.Flow.handle, Iodata.Drv.Fmt.handle, Iodata.Drv.Helpers.handle, Iodata.Drv.IOData.handle, Iodata.Drv.Inputs.handle, Iodata.Drv.Orbitals.handle, Iodata.Drv.Overlap.handle, Iodata.Drv.Segment.handle, Iodata.Drv.Select.handle, Iodata.Drv.Traj.handle, Iodata.Drv.Units.handle]
+  [Iodata.Drv.Cli.handle, Iodata.Drv.Conv.handle, Iodata.Drv.Flow.handle, Iodata.Drv.Fmt.handle, Iodata.Drv.Helpers.handle, Iodata.Drv.IOData.handle, Iodata.Drv.Inputs.handle, Iodata.Drv.Orbitals.handle, Iodata.Drv.Overlap.handle, Iodata.Drv.Segment.handle, Iodata.Drv.Select.handle, Iodata.Drv.Traj.handle, Iodata.Drv.Units.handle, Iodata.Drv.Wf.handle]
 
 def respond (line : String) : String :=
   let ws := (line.splitOn " ").filter (· ≠ "")
